@@ -62,6 +62,15 @@ Theorem C08_rollback_to_durable :
 Proof. exact rollback_durable. Qed.
 Print Assumptions C08_rollback_to_durable.
 
+(** A rollback that removes the fabric of the fail-safe context (nothing stored to reload) removes
+    the fabric and leaves no usable CASE session on its index - whoever triggered the rollback. *)
+Theorem C08_rollback_drops_sessions :
+  forall st c f fl,
+  s_fs st = Armed f fl -> f <> 0 -> fget f (k_fabs (s_kv st)) = None ->
+  sess_ctx (expire st c) (SC f) = None /\ fget f (s_fabs (expire st c)) = None.
+Proof. exact rollback_drops_case_session. Qed.
+Print Assumptions C08_rollback_drops_sessions.
+
 (** ** Commit is atomic.  CommissioningComplete, with no store failing or the FIRST store failing,
     either answers OK with everything staged now durable (RAM = load(KV), fabrics and networks as
     staged), or answers an error and has changed nothing at all (the fail-safe stays armed). *)
